@@ -427,7 +427,7 @@ impl Sim {
         match Pin::new(s).poll_write(&mut cx, bufs[0]) {
             Poll::Pending => { x.parked = true; "pending".into() }
             Poll::Ready(Ok(n)) => { x.parked = false; format!("wrote {n}") }
-            Poll::Ready(Err(e)) if e.kind() == std::io::ErrorKind::BrokenPipe => "brokenpipe".into(),
+            Poll::Ready(Err(e)) if e.kind() == std::io::ErrorKind::BrokenPipe => { x.parked = false; "brokenpipe".into() }
             Poll::Ready(Err(e)) => format!("ioerr {:?}", e.kind()),
         }
     }
@@ -442,7 +442,7 @@ impl Sim {
         match Pin::new(s).poll_write_vectored(&mut cx, &slices) {
             Poll::Pending => { x.parked = true; "pending".into() }
             Poll::Ready(Ok(n)) => { x.parked = false; format!("wrote {n}") }
-            Poll::Ready(Err(e)) if e.kind() == std::io::ErrorKind::BrokenPipe => "brokenpipe".into(),
+            Poll::Ready(Err(e)) if e.kind() == std::io::ErrorKind::BrokenPipe => { x.parked = false; "brokenpipe".into() }
             Poll::Ready(Err(e)) => format!("ioerr {:?}", e.kind()),
         }
     }
